@@ -28,25 +28,30 @@ CLAIM = {
     "technique": "Lean 4 proof (inductive invariant over an interleaving transition system, induction on the "
                  "schedule) + model/code correspondence under a deterministic scheduler for real threads",
     "text": (
-        "Proved in Lean for ANY number of threads, ANY interleaving of their GIL-atomic actions (unbounded: "
-        "induction on the schedule) and any type graph whose request programs pass the static check "
-        "(`compile` output; checked by the driver for every graph explored): with recursion stubs compared by "
-        "identity (the repaired FuncWrapper) no loader is ever called while a stub reachable from it is unbound "
-        "(safe_inv, no_unbound_call), every thread finishes within a fixed number of its own actions whatever "
-        "the others do (no lock is held across a blocking call: progress), and every call returns the "
-        "unfolding of its type, which is what the sequential run returns (all_schedules_safe). For the "
-        "unrepaired FuncWrapper (stubs equal by location) the model has a concrete 2-thread schedule with ONE "
-        "preemption that calls an unbound stub (exists_bad_schedule, by kernel evaluation), the same schedule "
-        "fails on the real retort. The model is tied to the code by replaying every explored schedule on real "
-        "threads and comparing the full action trace."
+        "Proved in Lean for ANY number of threads and ANY interleaving of their GIL-atomic actions (unbounded: "
+        "induction on the schedule), any type graph (self-/mutually recursive, shared sub-types): with recursion "
+        "stubs compared by identity (the repaired FuncWrapper) an inductive invariant (safe_inv) shows that no "
+        "loader is ever called while a stub reachable from it is unbound (no_unbound_call), that whatever is in "
+        "the loader cache stays callable later (cached_loaders_stay_callable), that every thread finishes within "
+        "3*len+6 of its own actions whatever the others do (every_thread_finishes: no deadlock; the only lock "
+        "guards a straight-line section), and - for request programs passing the schedule-independent static "
+        "check `typed`, evaluated by the driver for every explored graph - that every call returns the unfolding "
+        "of its type, hence exactly what the sequential run returns (all_schedules_safe). For the unrepaired "
+        "FuncWrapper (stubs equal by location) the faithful model has a 2-thread schedule with ONE preemption "
+        "that calls an unbound stub (exists_bad_schedule, kernel evaluation); the harness replays it on the real "
+        "retort. The model is tied to the code by replaying every explored schedule on real threads under a "
+        "deterministic scheduler and comparing the full action trace (cache hit/miss/store with object "
+        "identities, stub new/reuse/bind, call outcomes)."
     ),
     "note": (
         "Trusted: Lean 4.33 kernel; axioms audited each run. The theorems are about the Lean model; the model is "
-        "hand-written and tied to /repo by the schedule-run correspondence (all schedules with a bounded number "
-        "of preemptions over 7 type graphs, random schedules beyond). Assumed: CPython with the GIL makes a "
-        "single dict lookup / dict store / attribute store atomic; preemption inside C-level operations cannot be "
-        "exhibited by line tracing; requests that fail are not modelled (C11). Requires "
-        "fixes/C12-stub-identity.patch in /repo: on the unpatched tree the check reports the violation."
+        "hand-written and tied to /repo by the schedule-run correspondence (quick: all schedules with <= 1 "
+        "preemption over 9 two-thread type graphs, <= 2 sampled, random and statement-granularity schedules; "
+        "thorough: <= 2 exhaustive, <= 4 sampled). Assumed: CPython with the GIL makes a single dict lookup / "
+        "dict store / attribute store atomic; preemption inside C-level operations cannot be exhibited by line "
+        "tracing; only successful requests are modelled (failing requests: C11); `typed` is checked per graph, "
+        "not proved for all graphs. Needs fixes/C12-stub-identity.patch in /repo: on the unpatched tree the "
+        "check reports the violation with the failing schedule."
     ),
     "design_ref": "DESIGN.md §4 C12",
 }
@@ -304,11 +309,23 @@ class Real:
         self._expected: dict = {}
 
     def expected(self, direction, tp, depth):
+        """what a fresh retort returns single-threaded (computed in a helper thread: a tree under test may hang)"""
         k = (direction, type_name(tp), depth)
         if k not in self._expected:
-            r = self.Retort()
-            data = gen_data(tp, depth, direction)
-            self._expected[k] = r.load(data, tp) if direction == "load" else r.dump(data, tp)
+            import threading
+            box: list = []
+
+            def work():
+                try:
+                    r = self.Retort()
+                    data = gen_data(tp, depth, direction)
+                    box.append(("value", r.load(data, tp) if direction == "load" else r.dump(data, tp)))
+                except BaseException as e:  # noqa: BLE001
+                    box.append(("raises", classify_exc(e)))
+            th = threading.Thread(target=work, daemon=True)
+            th.start()
+            th.join(15)
+            self._expected[k] = box[0] if box else ("hangs", None)
         return self._expected[k]
 
 
@@ -369,7 +386,7 @@ class Outcome:
                 self.results.append(cls)
                 self.problems.append((cls, f"thread {ts.tid} ({direction} {type_name(tp)} depth {depth}) raised "
                                            f"{type(ts.exc).__name__}: {str(ts.exc)[:160]}"))
-            elif ts.result != real.expected(direction, tp, depth):
+            elif ("value", ts.result) != real.expected(direction, tp, depth):
                 self.results.append("wrong-result")
                 self.problems.append(("wrong-result", f"thread {ts.tid} ({direction} {type_name(tp)}) returned "
                                                       f"{ts.result!r}, single-threaded {real.expected(direction, tp, depth)!r}"))
@@ -393,7 +410,7 @@ class Outcome:
                                               f"loader obtained by thread {tid} fails on a later call: "
                                               f"{type(e).__name__}: {str(e)[:160]}"))
                         continue
-                    if got1 != exp or got2 != exp:
+                    if ("value", got1) != exp or ("value", got2) != exp:
                         self.problems.append(("later-call:wrong-result",
                                               f"loader obtained by thread {tid} returns a wrong result later"))
             # generated file names are unique per generated closure (ConcurrentCounter)
@@ -492,6 +509,11 @@ def canon_real_trace(sc: Scenario, actions: list) -> list:
     for a in actions:
         tid, kind = a[0], a[1]
         if kind == "create":
+            continue
+        if any(isinstance(x, str) and x.startswith("<unreadable") for x in a[2:3]) or \
+                len(a) < {"lc_get": 4, "cc_contains": 5, "cc_get": 4, "cc_store": 4, "lc_put": 4, "stub_new": 3,
+                          "stub_reuse": 4, "stub_bind": 5, "call": 4}.get(kind, 2):
+            out.append([tid, kind, "<unreadable>"])      # restructured code: never equal to a model action
             continue
         if kind == "lc_get":
             out.append([tid, kind, a[2], rn(a[3])])
